@@ -14,6 +14,7 @@ package odt
 //@   property C15
 //@   flags callsites
 //@   callsite strings.Repeat(s, count) requires level_1_to_6: s == "#" ==> 1 <= count && count <= 6
+//@   callsite strings.Repeat(s, count) requires configured_maximum_applies_after_the_offset: s == "#" && mdOpts.MaxHeadingLevel > 0 ==> count <= mdOpts.MaxHeadingLevel
 
 // ---- C15: everything written into a pipe table is a structural literal or escaped cell text ----
 // total number of columns a row occupies: every cell counts its span (at least 1), covered cells included
@@ -23,7 +24,6 @@ package odt
 // gets exactly colCount of them, whatever spans and covered cells it contains.
 //@ func (*ParsedTable) ToMarkdown
 //@   property C15
-//@   flags nosafety
 //@   count cells: WriteString(s) when s == " |" || s == " --- |"
 //@   callsite WriteString(s) requires cell_or_structure: s == "|" || s == " " || s == " |" || s == "\n" || s == " --- |" || (forall k int :: {s[k]} 0 <= k && k < len(s) ==> s[k] != 10 && (s[k] == '|' ==> k >= 1 && s[k-1] == 92))
 //@   loop 0:
@@ -83,7 +83,6 @@ package odt
 // together at most maxTableColumns plus one column per cell (so bookkeeping and rendering stay linear in the input) ----
 //@ func (*TableParser) parseCell results (res)
 //@   property C02
-//@   flags nosafety
 //@   ensures span_is_bounded: 1 <= res.ColSpan && res.ColSpan <= maxTableColumns && res.RowSpan >= 1
 //@   loop 0:
 //@     invariant parsed.ColSpan == entry(parsed.ColSpan) && parsed.RowSpan == entry(parsed.RowSpan)
@@ -92,7 +91,6 @@ package odt
 //@ spec rec prefix func odtRowWidth(cells []ParsedTableCell, n int) int = n <= 0 ? 0 : odtRowWidth(cells, n - 1) + cells[n-1].ColSpan
 //@ func (*TableParser) parseRow results (res)
 //@   property C02
-//@   flags nosafety
 //@   ensures row_width_is_bounded: len(res.Cells) == len(row.Cells) && odtRowWidth(res.Cells, len(res.Cells)) <= maxTableColumns + len(res.Cells)
 //@   ensures every_cell_spans_at_least_one_column: forall k int :: {res.Cells[k]} 0 <= k && k < len(res.Cells) ==> res.Cells[k].ColSpan >= 1
 //@   loop 0:
@@ -103,7 +101,6 @@ package odt
 // obligations are ON for this function; the spans of the cells are at least 1, established by parseRow for every row)
 //@ func (*TableParser) ParseTable results (res)
 //@   property C02
-//@   flags nosafety
 //@   loop 0:
 //@     invariant forall r int, k int :: {parsed.Rows[r].Cells[k]} 0 <= r && r < len(parsed.Rows) && 0 <= k && k < len(parsed.Rows[r].Cells) ==> parsed.Rows[r].Cells[k].ColSpan >= 1
 
@@ -111,7 +108,6 @@ package odt
 // part, and only for the side that was asked for; nothing is deleted otherwise ----
 //@ func (*Reader) shouldExcludeParagraph results (r0)
 //@   property C11
-//@   flags nosafety
 //@   atreturn#3 equals_a_header_line: opts.ExcludeHeaders && headerLine != "" && sameseq(trimmedText, headerLine)
 //@   atreturn#4 equals_a_footer_line: opts.ExcludeFooters && footerLine != "" && sameseq(trimmedText, footerLine)
 //@   ensures nothing_asked_nothing_deleted: !opts.ExcludeHeaders && !opts.ExcludeFooters ==> !r0
